@@ -65,6 +65,8 @@ def plans(draw, stratum=None):
     a purely random choice leaves some of the 37 kinds of fault un-sampled in most runs); the job, the victim, the cluster shape
     and the moment of a helper kill are always generated."""
     spec = draw(job_specs(max_tasks=6, min_tasks=2, gpu=False, ext="none"))
+    for t in spec["tasks"]:
+        t["fn_of"] = None  # a callable shared with the victim would carry the fault into a second task
     n = len(spec["tasks"])
     vi = draw(st.integers(0, n - 1))
     if stratum is not None and stratum[0] == "task" and stratum[3] != "before":
